@@ -15,3 +15,32 @@ Lemma gate_matches_needs_lemma g :
             g_severity g = nd_severity n /\
             forall c f, eval_body c f (g_body g) = need_unmet (nd_need n) c f.
 Proof. apply table_matches_sound. exact gated_rules_match_needs. Qed.
+
+(* the end-to-end statements for the gates of the tree as it is now *)
+Lemma bundle_unmet_need_silent_and_listed (F V : Type) (info : F -> file_info)
+      (report_of custom_report_of : rule_id -> F -> list V) (c : caps)
+      (to_run custom_to_run : list rule_id) (order : list F) (nd : need_row) :
+  In nd needs_table ->
+  let r := (nd_cat nd, nd_title nd) in
+  let notices_of := fun (r : rule_id) (f : F) => table_notices gated_rules c r (info f) in
+  In r to_run -> ~ In r custom_to_run ->
+  order <> [] ->
+  (forall f, In f order -> need_unmet (nd_need nd) c (info f) = true) ->
+  (forall f v, ~ In (f, (r, v)) (rego_violations F V notices_of report_of custom_report_of to_run custom_to_run order)) /\
+  exists n, In n (lint_notices F notices_of to_run order) /\
+            n_category n = nd_cat nd /\ n_title n = nd_title nd /\ n_severity n = nd_severity nd /\ n_level n = s_notice.
+Proof.
+  intros Hnd r notices_of. apply (unmet_need_silent_and_listed F V info report_of custom_report_of gated_rules needs_table
+                                    gated_rules_match_needs c to_run custom_to_run order nd Hnd).
+Qed.
+
+Lemma bundle_listed_notice_has_unmet_need (F : Type) (info : F -> file_info) (c : caps)
+      (to_run : list rule_id) (order : list F) (n : notice) :
+  let notices_of := fun (r : rule_id) (f : F) => table_notices gated_rules c r (info f) in
+  In n (lint_notices F notices_of to_run order) ->
+  exists nd f, In nd needs_table /\ In f order /\ In (nd_cat nd, nd_title nd) to_run /\
+               need_unmet (nd_need nd) c (info f) = true /\
+               n_category n = nd_cat nd /\ n_title n = nd_title nd /\ n_severity n = nd_severity nd.
+Proof.
+  intros notices_of. apply (listed_notice_has_unmet_need F info gated_rules needs_table gated_rules_match_needs c).
+Qed.
